@@ -36,7 +36,7 @@ func c19Alphabet(slots []c19slot, maxBatch int) func(m *model.Model) []drv.Op {
 				case "put1":
 					r.Put = with(slots[i].key, "a", val.S("one"))
 				case "put2":
-					r.Put = with(slots[i].key, "a", val.S("two"), "b", val.N("2"))
+					r.Put = with(slots[i].key, "b", val.N("2")) // (no attribute a: the item leaves the sparse index on a)
 				default:
 					r.Del = slots[i].key.Clone()
 				}
@@ -96,7 +96,7 @@ func C19(run *ev.Run, tier string) map[string]interface{} {
 	for i := 0; i < 26; i++ {
 		u.Keys["tba"] = append(u.Keys["tba"], hKey(fmt.Sprintf("big%02d", i)))
 	}
-	cfg := drv.TableCfg{Hash: "h", HashT: "S", Billing: "PAY_PER_REQUEST"}
+	cfg := drv.TableCfg{Hash: "h", HashT: "S", Billing: "PAY_PER_REQUEST", GSI: []drv.IndexCfg{{Name: "gsi", Hash: "a", HashT: "S"}}}
 	total, per := exploreBoth(run, func(newImpl func() drv.Driver, dn string) []mc.Sys {
 		return []mc.Sys{{
 			Name:     "C19",
@@ -126,7 +126,7 @@ func C19(run *ev.Run, tier string) map[string]interface{} {
 // decomposition is only defined that way), one that refuses them must change nothing. Sizes above
 // 12 on purpose: an implementation that reorders requests with an unstable sort shows only there.
 func c19RepeatedKeys(run *ev.Run) (runs, rejected int) {
-	cfg := drv.TableCfg{Hash: "h", HashT: "S", Billing: "PAY_PER_REQUEST"}
+	cfg := drv.TableCfg{Hash: "h", HashT: "S", Billing: "PAY_PER_REQUEST", GSI: []drv.IndexCfg{{Name: "gsi", Hash: "a", HashT: "S"}}}
 	tables := []string{"tbc", "tbb", "tba"}
 	for _, d := range Drivers {
 		for _, n := range []int{13, 16, 20, 25} {
